@@ -68,12 +68,100 @@ func unshift(m uint64, s int64) uint64 {
 	return m << uint(-s)
 }
 
+// bitEnv binds the parameters of a helper that bitEval is looking through to the caller's values.
+var bitEnv = map[ssa.Value]ssa.Value{}
+
 // bitEval interprets v as an OR of ((param & srcMask) shifted) parts.
 func bitEval(v ssa.Value, depth int) ([]bitPart, bool) {
-	if depth > 12 {
+	if depth > 16 {
 		return nil, false
 	}
+	if rv, ok := bitEnv[v]; ok {
+		return bitEval(rv, depth+1)
+	}
+	// field k of a struct value bound in bitEnv (read as Field, or through the local the
+	// parameter was spilled to): what the caller's literal holds in field k
+	fieldOfBound := func(holder ssa.Value, k int) ([]bitPart, bool, bool) {
+		rv, ok := bitEnv[holder]
+		if !ok {
+			if a, isA := holder.(*ssa.Alloc); isA {
+				if cv, okc := cellValue(a); okc {
+					rv, ok = bitEnv[cv]
+				}
+			}
+		}
+		if !ok {
+			return nil, false, false
+		}
+		if ld, isLd := rv.(*ssa.UnOp); isLd && ld.Op == token.MUL {
+			if lit, isA := ld.X.(*ssa.Alloc); isA {
+				for _, ref := range *lit.Referrers() {
+					if fa, isFA := ref.(*ssa.FieldAddr); isFA && fa.Field == k {
+						for _, r2 := range *fa.Referrers() {
+							if st, isSt := r2.(*ssa.Store); isSt && st.Addr == ssa.Value(fa) {
+								saved := bitEnv
+								bitEnv = map[ssa.Value]ssa.Value{}
+								ps, okp := bitEval(st.Val, depth+1)
+								bitEnv = saved
+								return ps, okp, true
+							}
+						}
+					}
+				}
+			}
+		}
+		return nil, false, true
+	}
+	if u, isU := v.(*ssa.UnOp); isU && u.Op == token.MUL {
+		if fa, isFA := u.X.(*ssa.FieldAddr); isFA {
+			if ps, okp, bound := fieldOfBound(fa.X, fa.Field); bound {
+				return ps, okp
+			}
+		}
+	}
 	switch x := v.(type) {
+	case *ssa.Field:
+		if ps, okp, bound := fieldOfBound(x.X, x.Field); bound {
+			return ps, okp
+		}
+		// a field of a struct parameter of a helper being looked through: what the caller put there
+		if rv, ok := bitEnv[x.X]; ok {
+			if ld, isLd := rv.(*ssa.UnOp); isLd && ld.Op == token.MUL {
+				if lit, isA := ld.X.(*ssa.Alloc); isA {
+					for _, ref := range *lit.Referrers() {
+						if fa, isFA := ref.(*ssa.FieldAddr); isFA && fa.Field == x.Field {
+							for _, r2 := range *fa.Referrers() {
+								if st, isSt := r2.(*ssa.Store); isSt && st.Addr == ssa.Value(fa) {
+									saved := bitEnv
+									bitEnv = map[ssa.Value]ssa.Value{}
+									ps, ok := bitEval(st.Val, depth+1)
+									bitEnv = saved
+									return ps, ok
+								}
+							}
+						}
+					}
+				}
+			}
+		}
+		return nil, false
+	case *ssa.Call:
+		// a one-block module helper that does the packing: evaluated with its parameters bound
+		h := x.Call.StaticCallee()
+		if isModuleFn(h) && len(h.Blocks) == 1 && len(h.Params) == len(x.Call.Args) {
+			if rv := singleReturn(h); rv != nil {
+				saved := bitEnv
+				env := map[ssa.Value]ssa.Value{}
+				for i, prm := range h.Params {
+					env[prm] = x.Call.Args[i]
+				}
+				bitEnv = env
+				ps, ok := bitEval(rv, depth+1)
+				bitEnv = saved
+				return ps, ok
+			}
+		}
+		return nil, false
 	case *ssa.Parameter:
 		return []bitPart{{x.Name(), ^uint64(0), 0}}, true
 	case *ssa.Convert:
